@@ -12,7 +12,9 @@ import (
 	"hash/fnv"
 	"os"
 	"os/exec"
+	"path/filepath"
 	"strings"
+	"sync"
 
 	"github.com/protomaps/go-pmtiles/pmtiles"
 )
@@ -62,6 +64,11 @@ func opVerify(cli bool, path string) error {
 
 func opConvert(cli bool, in, out string, dedup bool, tmp *os.File) error {
 	if cli {
+		// history: an earlier run with the same output name and temporary directory failed at the very end (its
+		// output directory does not exist) after writing far more tile data than this run will
+		if sm := staleMakerMbtiles(); sm != "" {
+			cliRun("convert", sm, filepath.Join(Scratch(), "no-such-directory", filepath.Base(out)), "--tmpdir="+Scratch())
+		}
 		args := []string{"convert", in, out, "--tmpdir=" + Scratch()}
 		if !dedup {
 			args = append(args, "--no-deduplication")
@@ -87,6 +94,10 @@ func opCluster(cli bool, path string, dedup bool) error {
 func opExtract(cli bool, input string, minz, maxz int8, bbox, output string, threads int, overfetch float32) error {
 	if cli {
 		args := []string{"extract", input, output}
+		if threads == 2 && !strings.HasPrefix(input, "http") {
+			// the same source named as bucket + key
+			args = []string{"extract", "--bucket=file://" + filepath.Dir(input), filepath.Base(input), output}
+		}
 		if threads != 4 || overfetch != 0.05 { // 4 and 0.05 are the documented defaults: left to main.go
 			args = append(args, fmt.Sprintf("--download-threads=%d", threads), fmt.Sprintf("--overfetch=%v", overfetch))
 		}
@@ -108,6 +119,10 @@ func opExtract(cli bool, input string, minz, maxz int8, bbox, output string, thr
 // opTile: what `pmtiles tile` writes for one tile (library: Show with showTile)
 func opTile(cli bool, path string, z, x, y int) ([]byte, error) {
 	if cli {
+		if (z+x+y)%2 == 1 {
+			// the same file named as bucket + key
+			return cliRun("tile", "--bucket=file://"+filepath.Dir(path), filepath.Base(path), fmt.Sprint(z), fmt.Sprint(x), fmt.Sprint(y))
+		}
 		return cliRun("tile", path, fmt.Sprint(z), fmt.Sprint(x), fmt.Sprint(y))
 	}
 	var buf bytes.Buffer
@@ -151,4 +166,26 @@ func cliDupSrv(emit func(string), every uint32, budget int) func(string) {
 		budget--
 		emit("srvreal cli" + strings.TrimPrefix(line, "srvreal "))
 	}
+}
+
+var staleMakerOnce sync.Once
+var staleMakerPath string
+
+// staleMakerMbtiles: a database with one 200 KB tile, written once per harness process
+func staleMakerMbtiles() string {
+	staleMakerOnce.Do(func() {
+		p := filepath.Join(Scratch(), "stale-maker.mbtiles")
+		blob := make([]byte, 200000)
+		st := uint64(88172645463325252)
+		for i := range blob {
+			st ^= st << 13
+			st ^= st >> 7
+			st ^= st << 17
+			blob[i] = byte(st >> 32)
+		}
+		if writeMbtiles(p, [][2]string{{"format", "png"}, {"bounds", "-10,-10,10,10"}}, []mbRow{{0, 0, 0, blob}}) == nil {
+			staleMakerPath = p
+		}
+	})
+	return staleMakerPath
 }
